@@ -79,16 +79,17 @@ func (p *page) item(mode int, key, shadowID string) {
 }
 
 type inst struct {
+	ic   string                                                // id interceptor the model was built with ("none", "" for waste)
 	call func(size int32, tok string, mask int) (*page, error) // the paged RPC on the real ModelServer
 	full func() []string                                       // model-level listing (not the paged RPC)
 	del  func(id string) error
 }
 
 type rpc struct {
-	name      string // histogram tag / JSON
-	coq       string // constructor of Pager.server ("" for waste)
-	chooseIDs bool   // false: ids are allocated by the model (hail)
-	build     func(ids []string, n int, r *vcoq.Rand) (*inst, error)
+	name      string                                                                          // histogram tag / JSON
+	coq       string                                                                          // constructor of Pager.server ("" for waste)
+	chooseIDs bool                                                                            // false: ids are allocated by the model (hail)
+	build     func(ids []string, n int, r *vcoq.Rand, opts ...resource.Option) (*inst, error) // opts: constructor options of the model (id interceptor)
 }
 
 var ctx = context.Background()
@@ -119,8 +120,8 @@ func (d *idReader) Read(p []byte) (int, error) {
 
 func rpcs() []rpc {
 	return []rpc{
-		{name: "electric.ListModes", coq: "SElectric", chooseIDs: true, build: func(ids []string, n int, r *vcoq.Rand) (*inst, error) {
-			m := electricpb.NewModel()
+		{name: "electric.ListModes", coq: "SElectric", chooseIDs: true, build: func(ids []string, n int, r *vcoq.Rand, opts ...resource.Option) (*inst, error) {
+			m := electricpb.NewModel(opts...)
 			for _, id := range ids {
 				if err := m.AddMode(&traits.ElectricMode{Id: id, Title: "s:" + id}); err != nil {
 					return nil, err
@@ -148,8 +149,8 @@ func rpcs() []rpc {
 				del: func(id string) error { return m.DeleteMode(id) },
 			}, nil
 		}},
-		{name: "hail.ListHails", coq: "SHail", chooseIDs: false, build: func(_ []string, n int, r *vcoq.Rand) (*inst, error) {
-			m := hailpb.NewModel(hailpb.WithKeepAlive(-1), resource.WithRNG(&idReader{r: r}))
+		{name: "hail.ListHails", coq: "SHail", chooseIDs: false, build: func(_ []string, n int, r *vcoq.Rand, opts ...resource.Option) (*inst, error) {
+			m := hailpb.NewModel(append([]resource.Option{hailpb.WithKeepAlive(-1), resource.WithRNG(&idReader{r: r})}, opts...)...)
 			for i := 0; i < n; i++ {
 				if _, err := m.CreateHail(&traits.Hail{Origin: &traits.Hail_Location{Name: strconv.Itoa(i)}}); err != nil {
 					return nil, err
@@ -181,8 +182,8 @@ func rpcs() []rpc {
 				del: func(id string) error { _, err := m.DeleteHail(id); return err },
 			}, nil
 		}},
-		{name: "parent.ListChildren", coq: "SParent", chooseIDs: true, build: func(ids []string, n int, r *vcoq.Rand) (*inst, error) {
-			m := parentpb.NewModel()
+		{name: "parent.ListChildren", coq: "SParent", chooseIDs: true, build: func(ids []string, n int, r *vcoq.Rand, opts ...resource.Option) (*inst, error) {
+			m := parentpb.NewModel(opts...)
 			for _, id := range ids {
 				m.AddChild(&traits.Child{Name: id, Parent: "s:" + id})
 			}
@@ -208,8 +209,8 @@ func rpcs() []rpc {
 				del: func(id string) error { _, err := m.RemoveChildByName(id); return err },
 			}, nil
 		}},
-		{name: "publication.ListPublications", coq: "SPublication", chooseIDs: true, build: func(ids []string, n int, r *vcoq.Rand) (*inst, error) {
-			m := publicationpb.NewModel()
+		{name: "publication.ListPublications", coq: "SPublication", chooseIDs: true, build: func(ids []string, n int, r *vcoq.Rand, opts ...resource.Option) (*inst, error) {
+			m := publicationpb.NewModel(opts...)
 			for _, id := range ids {
 				if _, err := m.CreatePublication(&traits.Publication{Id: id, MediaType: "s:" + id}); err != nil {
 					return nil, err
@@ -237,8 +238,8 @@ func rpcs() []rpc {
 				del: func(id string) error { _, err := m.DeletePublication(id); return err },
 			}, nil
 		}},
-		{name: "vending.ListConsumables", coq: "SConsumables", chooseIDs: true, build: func(ids []string, n int, r *vcoq.Rand) (*inst, error) {
-			m := vendingpb.NewModel()
+		{name: "vending.ListConsumables", coq: "SConsumables", chooseIDs: true, build: func(ids []string, n int, r *vcoq.Rand, opts ...resource.Option) (*inst, error) {
+			m := vendingpb.NewModel(opts...)
 			for _, id := range ids {
 				if _, err := m.CreateConsumable(&traits.Consumable{Name: id, Title: "s:" + id}); err != nil {
 					return nil, err
@@ -266,8 +267,8 @@ func rpcs() []rpc {
 				del: func(id string) error { _, err := m.DeleteConsumable(id); return err },
 			}, nil
 		}},
-		{name: "vending.ListInventory", coq: "SInventory", chooseIDs: true, build: func(ids []string, n int, r *vcoq.Rand) (*inst, error) {
-			m := vendingpb.NewModel()
+		{name: "vending.ListInventory", coq: "SInventory", chooseIDs: true, build: func(ids []string, n int, r *vcoq.Rand, opts ...resource.Option) (*inst, error) {
+			m := vendingpb.NewModel(opts...)
 			byUsed := map[float32]string{}
 			for i, id := range ids {
 				byUsed[float32(i+1)] = id
@@ -336,6 +337,53 @@ func buildWaste(ids []string) (*inst, error) {
 			return
 		},
 	}, nil
+}
+
+// ---- constructor options: id interceptors ----
+//
+// resource.WithIDInterceptor is accepted by every trait model's NewModel and handed to its
+// collection(s): the items are then stored under f(id) and Collection.List sorts by f(id), while the
+// handlers page by the id field of the bodies.  "For example, this can be used to make a
+// case-insensitive collection by mapping all IDs to lowercase" (pkg/resource/opt.go).
+type icept struct {
+	name string
+	f    func(string) string
+}
+
+func reverseRunes(s string) string {
+	rs := []rune(s)
+	for i, j := 0, len(rs)-1; i < j; i, j = i+1, j-1 {
+		rs[i], rs[j] = rs[j], rs[i]
+	}
+	return string(rs)
+}
+
+var icepts = []icept{
+	{"none", nil},
+	{"strings.ToLower", strings.ToLower},
+	{"strings.ToUpper", strings.ToUpper},
+	{"reverse", reverseRunes}, // order by the last character first
+	{"length-prefix", func(s string) string { // shorter ids first ("" stays "": Collection.Add allocates an id only when the MAPPED id is empty)
+		if s == "" {
+			return ""
+		}
+		return fmt.Sprintf("%04d/%s", len(s), s)
+	}},
+	{"trim-prefix", func(s string) string { return strings.TrimLeft(s, "aA/") }}, // not injective: aab and b collide
+}
+
+func (ic icept) opts() []resource.Option {
+	if ic.f == nil {
+		return nil
+	}
+	return []resource.Option{resource.WithIDInterceptor(ic.f)}
+}
+
+func (ic icept) key(id string) string {
+	if ic.f == nil {
+		return id
+	}
+	return ic.f(id)
 }
 
 // ---- tokens ----
@@ -410,12 +458,13 @@ func (c tokClass) coqWaste() string {
 // ---- chains ----
 
 type c15 struct {
-	o       *vcoq.Out
-	r       *vcoq.Rand
-	skipped int
-	minted  []string // raw next_page_tokens handed out by any key-token RPC (fed to other RPCs later)
-	cases   int
-	guardOK int
+	o        *vcoq.Out
+	r        *vcoq.Rand
+	skipped  int
+	minted   []string // raw next_page_tokens handed out by any key-token RPC (fed to other RPCs later)
+	cases    int
+	guardOK  int
+	thorough bool
 }
 
 // cstr prints a Go string as a Coq string: a literal when printable ASCII, else by its bytes.
@@ -473,6 +522,7 @@ func capOf(size int32) int {
 // chain runs one client loop and records it.  Request i asks for sizes[i mod len(sizes)] items;
 // mask is the read mask mode of every request of the chain.  waste selects the numeric token flavour.
 func (g *c15) chain(rp rpc, in *inst, sizes []int32, mask int, tok0 string, tokTag string) {
+	ic := in.ic
 	waste := rp.coq == ""
 	keys := in.full()
 	n := len(keys)
@@ -482,16 +532,32 @@ func (g *c15) chain(rp rpc, in *inst, sizes []int32, mask int, tok0 string, tokT
 	} else {
 		cls = classifyKeyToken(tok0)
 	}
-	js := map[string]any{"rpc": rp.name, "keys": keys, "page_sizes": sizes, "page_sizes_note": "request i sends page_sizes[i mod len]", "read_mask": []string{"none", "key+shadow field", "shadow field only (key left out)"}[mask], "page_token": tok0,
+	js := map[string]any{"rpc": rp.name, "model_constructor_option": "resource.WithIDInterceptor: " + ic, "keys": keys, "keys_note": "id fields in the order of the model-level listing (the order of the collection keys)", "page_sizes": sizes, "page_sizes_note": "request i sends page_sizes[i mod len]", "read_mask": []string{"none", "key+shadow field", "shadow field only (key left out)"}[mask], "page_token": tok0,
 		"token_decoded": map[string]any{"kind": cls.kind, "key": cls.key, "num": cls.num, "unknown_field_bytes": cls.extra}}
+	if cls.kind != "empty" {
+		js["page_token_note"] = "the chain starts from a token supplied by the client, not minted in this chain; when it decodes and names a key (present or not), the items whose id is greater than that key are due, in ascending order of their ids"
+	}
 	guard := true
+	ascending := true
 	for i, k := range keys {
 		if !utf8.ValidString(k) {
 			g.skipped++
 			return
 		}
-		if !waste && (k == "" || i > 0 && keys[i-1] >= k) {
+		if !waste && k == "" {
 			guard = false
+		}
+		if i > 0 && keys[i-1] >= k {
+			ascending = false
+		}
+	}
+	if !waste {
+		distinct := map[string]bool{}
+		for _, k := range keys {
+			if distinct[k] {
+				guard = false
+			}
+			distinct[k] = true
 		}
 	}
 	var obs []string
@@ -611,6 +677,12 @@ func (g *c15) chain(rp rpc, in *inst, sizes []int32, mask int, tok0 string, tokT
 	}
 	tags := []string{rp.name, "token:" + tokTag, "outcome:" + outcome, "model-branch(first answer):" + first,
 		"read_mask:" + []string{"none", "with-key", "key-left-out"}[mask], "C15_guard:" + map[bool]string{true: "holds", false: "fails (case not judged)"}[guard]}
+	if !waste {
+		tags = append(tags, "id-interceptor:"+ic)
+		if !ascending {
+			tags = append(tags, "model-level listing NOT ascending by id (handler's re-sort matters)")
+		}
+	}
 	if len(sizes) == 1 {
 		tags = append(tags, "sizes:constant")
 	} else {
@@ -698,8 +770,16 @@ var specialIDs = []string{"~", "~~", ">", "?", "ab>", "ab?", "abc~", "a~", "~a",
 	"\u65e5\u672c", "\U0001F600", "\U0010FFFF", "a\"b", "\"", "\ufffd", "a\u0301"}
 var longIDs = []string{strings.Repeat("k", 127), strings.Repeat("k", 128), strings.Repeat("~", 200)}
 
-func (g *c15) ids(n int) []string {
-	seen := map[string]bool{}
+// mixedAlphabet: for collections built with an id interceptor: both cases of the same letters, so that
+// the order of the mapped keys (lower-cased, upper-cased, reversed, by length) differs from the order of the ids.
+const mixedAlphabet = "abzABZ0_~/"
+
+func (g *c15) ids(n int, ic icept) []string {
+	alphabet := alphabet
+	if ic.f != nil {
+		alphabet = mixedAlphabet
+	}
+	seen := map[string]bool{} // by the key the collection stores the id under: ids with equal keys cannot coexist
 	var out []string
 	maxLen := 3
 	if n > 40 {
@@ -720,8 +800,8 @@ func (g *c15) ids(n int) []string {
 			if len(out) > 0 && g.r.Chance(30) && len(s) < 20 { // appended to an existing id
 				s = out[g.r.Intn(len(out))] + s
 			}
-			if !seen[s] {
-				seen[s] = true
+			if k := ic.key(s); k != "" && !seen[k] {
+				seen[k] = true
 				out = append(out, s)
 			}
 			continue
@@ -741,10 +821,10 @@ func (g *c15) ids(n int) []string {
 			}
 			s = string(bs)
 		}
-		if s == "" || seen[s] || len(s) > 12 {
+		if s == "" || ic.key(s) == "" || seen[ic.key(s)] || len(s) > 12 {
 			continue
 		}
-		seen[s] = true
+		seen[ic.key(s)] = true
 		out = append(out, s)
 	}
 	return out
@@ -780,6 +860,8 @@ func (g *c15) sizesFor(n int, all bool) []int32 {
 		out := []int32{0, 1000, 5000, int32(-1 - g.r.Intn(5)), int32(g.r.Range(300, 1100))}
 		if n != 1001 {
 			out = append(out, 999, 1001, 50)
+		} else if g.thorough {
+			out = append(out, 999, 50)
 		}
 		return out
 	}
@@ -811,7 +893,10 @@ func (g *c15) patternsFor(n int, all bool) [][]int32 {
 		out = append(out, []int32{z})
 	}
 	if n > 60 {
-		out = append(out, []int32{400, 5000}, []int32{1000, 1}, []int32{int32(g.r.Range(1, 1000)), 0, 5000}, []int32{999, 1, 1, -1})
+		out = append(out, []int32{400, 5000}, []int32{999, 1, 1, -1})
+		if g.thorough {
+			out = append(out, []int32{1000, 1}, []int32{int32(g.r.Range(1, 1000)), 0, 5000})
+		}
 		return out
 	}
 	small := int32(1 + g.r.Intn(3))
@@ -952,13 +1037,13 @@ func (g *c15) badWasteTokens(n int) [][2]string {
 }
 
 func genC15(o *vcoq.Out, r *vcoq.Rand, tier string) error {
-	o.Header = "From SC Require Import Base.Prelude Pages.Codec Pages.PagerCfg Pages.Pager Pages.C15Judge."
+	o.Header = "From SC Require Import Base.Prelude Pages.Codec Pages.PagerCfg Pages.Pager Pages.Listing Pages.C15Judge."
 	o.CaseType = "c15case"
 	o.Judge = "judge"
 	o.Shard = 150
-	o.Rule = "one case = one client page chain against the real ModelServer (7 RPCs): collection sizes 0-60 + 1001 (thorough: +999,1000); per collection the same page size on every request {-5..0,1,2,3,7,50,1000,5000,random incl. divisors of n and the ends of int32} (quick: 6 of them, thorough: all) and page sizes that change from request to request (small then everything, large then small, negative on the second request, random triples); read mask none / key+shadow field / shadow field only (key left out; items are identified by a second field carrying the id); ids random over a 10-letter alphabet with ~50% extending or truncating another id, ~15% special (bytes whose token has base64 sextets 62/63, non-ASCII UTF-8 of 2/3/4 bytes, quotes, 127/128/200 bytes) (hail: ids allocated by the model from a scripted RNG that forces prefix collisions); token stream per collection: bad base64, base64 of non-PageToken bytes, PageTokens without resource name or with unknown fields, absent keys (incl. a deleted key, non-ASCII, 128 bytes), present keys, tokens minted earlier by this or another RPC; waste: non-numeric, above count, negative, in-range numeric tokens. next_page_tokens are recorded as the raw text. Non-trivial: non-empty collection. Distinct by the full case term."
-	g := &c15{o: o, r: r}
+	o.Rule = "one case = one client page chain against the real ModelServer (7 RPCs): collection sizes 0-60 + 1001 (thorough: +999,1000); every other collection (alternating per RPC) built with a constructor option resource.WithIDInterceptor (strings.ToLower, strings.ToUpper, reverse, length-prefix, a non-injective trim-prefix) and ids over both cases of the same letters, so that the model-level listing (ordered by the mapped keys) is not ascending by id; per collection the same page size on every request {-5..0,1,2,3,7,50,1000,5000,random incl. divisors of n and the ends of int32} (quick: 6 of them, thorough: all) and page sizes that change from request to request (small then everything, large then small, negative on the second request, random triples); read mask none / key+shadow field / shadow field only (key left out; items are identified by a second field carrying the id); ids random over a 10-letter alphabet with ~50% extending or truncating another id, ~15% special (bytes whose token has base64 sextets 62/63, non-ASCII UTF-8 of 2/3/4 bytes, quotes, 127/128/200 bytes) (hail: ids allocated by the model from a scripted RNG that forces prefix collisions); token stream per collection: bad base64, base64 of non-PageToken bytes, PageTokens without resource name or with unknown fields, absent keys (incl. a deleted key, non-ASCII, 128 bytes), present keys, tokens minted earlier by this or another RPC; waste: non-numeric, above count, negative, in-range numeric tokens. next_page_tokens are recorded as the raw text. Non-trivial: non-empty collection. Distinct by the full case term."
 	thorough := tier == "thorough"
+	g := &c15{o: o, r: r, thorough: thorough}
 
 	var ns []int
 	for n := 0; n <= 60; n++ {
@@ -977,26 +1062,60 @@ func genC15(o *vcoq.Out, r *vcoq.Rand, tier string) error {
 	}
 
 	all := rpcs()
-	for _, rp := range all {
-		for _, n := range ns {
+	for ri, rp := range all {
+		for ni, n := range ns {
+			// constructor options: every other collection is built with an id interceptor (which one
+			// rotates), alternating per RPC so that every size is paged with and without one
+			ic := icepts[0]
+			if (ni+ri)%2 == 1 && n <= 60 || n == 1000 {
+				ic = icepts[1+(ni/2+ri)%(len(icepts)-1)]
+			}
 			var ids []string
 			if rp.chooseIDs {
-				ids = g.ids(n)
+				ids = g.ids(n, ic)
 			}
-			in, err := rp.build(ids, n, r)
+			in, err := rp.build(ids, n, r, ic.opts()...)
 			if err != nil {
-				return fmt.Errorf("%s: populating %d items: %v", rp.name, n, err)
+				return fmt.Errorf("%s (id interceptor %s): populating %d items: %v", rp.name, ic.name, n, err)
 			}
+			in.ic = ic.name
 			keys := in.full()
 			if rp.chooseIDs {
+				// Collection.List: the bodies in ascending order of the keys they are stored under
 				want := append([]string{}, ids...)
-				sort.Strings(want)
+				sort.Slice(want, func(i, j int) bool { return ic.key(want[i]) < ic.key(want[j]) })
 				if !sameStrs(want, keys) {
-					o.Directs = append(o.Directs, vcoq.Direct{What: rp.name + ": model-level listing is not the sorted set of added ids", Class: "listing-not-sorted:" + rp.name, Replay: map[string]any{"rpc": rp.name, "added": ids, "listing": keys}})
+					o.Directs = append(o.Directs, vcoq.Direct{What: rp.name + ": model-level listing is not the set of added ids in the order of their collection keys", Class: "listing-not-sorted:" + rp.name, Replay: map[string]any{"rpc": rp.name, "id_interceptor": ic.name, "added": ids, "listing": keys}})
 					continue
 				}
-			} else if len(keys) != n {
-				return fmt.Errorf("%s: %d items created, %d listed", rp.name, n, len(keys))
+			} else {
+				if len(keys) != n {
+					return fmt.Errorf("%s: %d items created, %d listed", rp.name, n, len(keys))
+				}
+				if !sort.SliceIsSorted(keys, func(i, j int) bool { return ic.key(keys[i]) < ic.key(keys[j]) }) {
+					o.Directs = append(o.Directs, vcoq.Direct{What: rp.name + ": model-level listing is not in the order of the collection keys", Class: "listing-not-sorted:" + rp.name, Replay: map[string]any{"rpc": rp.name, "id_interceptor": ic.name, "listing": keys}})
+					continue
+				}
+			}
+			// the model-level listing as a case of its own: (id, key) pairs as added, ids as listed
+			// (small collections: the model looks the key of an id up in the pair list at every comparison)
+			if n <= 60 {
+				added := ids
+				if !rp.chooseIDs {
+					added = append([]string{}, keys...) // ids allocated by the model: any order will do
+					sort.Strings(added)
+				}
+				kv := make([]string, len(added))
+				jkv := make([][2]string, len(added))
+				for i, id := range added {
+					kv[i] = "(" + cstr(id) + ", " + cstr(ic.key(id)) + ")"
+					jkv[i] = [2]string{id, ic.key(id)}
+				}
+				coq := vcoq.App("KListing", vcoq.List(kv), coqStrs(keys))
+				g.cases++
+				g.guardOK++
+				o.Add(vcoq.Case{Coq: coq, JSON: map[string]any{"rpc": rp.name, "what": "model-level listing (resource.Collection.List)", "model_constructor_option": "resource.WithIDInterceptor: " + ic.name, "added_id_and_collection_key": jkv, "listing": keys},
+					Key: coq, NonTrivial: n > 1, Tags: []string{rp.name, "model-level-listing", "id-interceptor:" + ic.name, "C15_guard:holds"}})
 			}
 			big := n > 60
 			for i, pat := range g.patternsFor(n, thorough && !big) {
@@ -1006,8 +1125,8 @@ func genC15(o *vcoq.Out, r *vcoq.Rand, tier string) error {
 				}
 				g.chain(rp, in, pat, mask, "", "empty")
 			}
-			// corrupted / unexpected first tokens: every 3rd collection in quick, all in thorough
-			if thorough && !big || n%3 == 0 || n >= 49 && n <= 51 || n == 1001 {
+			// corrupted / unexpected first tokens: all collections in thorough; quick: every 3rd collection up to 30 items, 45, 49-51, 60, 1001
+			if thorough && !big || n%3 == 0 && (n <= 30 || n == 45 || n == 60) || n >= 49 && n <= 51 || n == 1001 {
 				for i, bt := range g.badKeyTokens(keys) {
 					if big && i%5 != n%5 {
 						continue // a thousand keys per case: a fifth of the stream is enough
@@ -1029,7 +1148,7 @@ func genC15(o *vcoq.Out, r *vcoq.Rand, tier string) error {
 	// waste
 	wrp := rpc{name: "waste.ListWasteRecords"}
 	for _, n := range ns {
-		ids := g.ids(n)
+		ids := g.ids(n, icepts[0])
 		in, err := buildWaste(ids)
 		if err != nil {
 			return fmt.Errorf("waste: populating %d records: %v", n, err)
@@ -1041,7 +1160,7 @@ func genC15(o *vcoq.Out, r *vcoq.Rand, tier string) error {
 		for _, pat := range g.patternsFor(n, thorough && !big) {
 			g.chain(wrp, in, pat, maskNone, "", "empty")
 		}
-		if thorough && !big || n%3 == 0 || n >= 49 && n <= 51 || n == 1001 {
+		if thorough && !big || n%3 == 0 && (n <= 30 || n == 45 || n == 60) || n >= 49 && n <= 51 || n == 1001 {
 			for i, bt := range g.badWasteTokens(n) {
 				if big && i%3 != n%3 {
 					continue
@@ -1051,6 +1170,6 @@ func genC15(o *vcoq.Out, r *vcoq.Rand, tier string) error {
 		}
 	}
 	o.Extra["skipped_invalid_utf8"] = g.skipped
-	o.Extra["guard_pass"] = fmt.Sprintf("%d of %d cases satisfy C15_guard (listing strictly ascending, no empty key, valid UTF-8, n < 2^31, n + 3 calls allowed)", g.guardOK, g.cases)
+	o.Extra["guard_pass"] = fmt.Sprintf("%d of %d cases satisfy C15_guard (ids pairwise different, no empty id, valid UTF-8, n < 2^31, n + 3 calls allowed)", g.guardOK, g.cases)
 	return nil
 }
